@@ -99,6 +99,9 @@ func TestVerifC14Enc(t *testing.T) {
 	builtins := c14Builtins()
 	n := vN(1000)
 	for _, c := range vCases(n + len(builtins)) {
+		if c == 0 {
+			c14UnmarshalKeeps(out, n+len(builtins))
+		}
 		if c < len(builtins) {
 			c14Builtin(out, c, builtins[c])
 			continue
@@ -321,3 +324,77 @@ func c14Builtin(out *vOut, c int, b c14BuiltinCfg) {
 type c14Stringer struct{ v any }
 
 func (s c14Stringer) String() string { return fmt.Sprintf("%+v", s.v) }
+
+// ---- "unmarshalling stores the secret unchanged" ----
+
+type c14PlainInner struct {
+	Secret configopaque.String `mapstructure:"secret"`
+	X      int                 `mapstructure:"x"`
+}
+
+type c14UnmInner struct {
+	Secret configopaque.String `mapstructure:"secret"`
+	X      int                 `mapstructure:"x"`
+}
+
+func (c *c14UnmInner) Unmarshal(conf *confmap.Conf) error {
+	return conf.Unmarshal(c, confmap.WithIgnoreUnused())
+}
+
+type c14UnmTarget struct {
+	Direct  configopaque.String            `mapstructure:"direct"`
+	Ptr     *configopaque.String           `mapstructure:"ptr"`
+	Headers map[string]configopaque.String `mapstructure:"headers"`
+	List    []configopaque.String          `mapstructure:"list"`
+	Nested  c14PlainInner                  `mapstructure:"nested"`
+	NestedU c14UnmInner                    `mapstructure:"nested_u"` // own Unmarshal, not squashed
+	Plain   c14PlainInner                  `mapstructure:",squash"`
+}
+
+type c14UnmSquashNamed struct {
+	Inner c14UnmInner `mapstructure:",squash"` // named field, squashed, own Unmarshal
+	Y     int         `mapstructure:"y"`
+}
+
+func c14UnmarshalKeeps(out *vOut, c int) {
+	out.Linef("case %d unmarshal", c)
+	// secrets are ASCII here (the driver's hex codec is byte-per-char); the encoder harness covers non-ASCII
+	for _, sec := range []string{"s3cr3t-%d-key", "[REDACTED]", "", "a b\n\"c\""} {
+		var t c14UnmTarget
+		err := confmap.NewFromStringMap(map[string]any{"direct": sec, "ptr": sec, "headers": map[string]any{"h": sec}, "list": []any{sec},
+			"nested": map[string]any{"secret": sec}, "nested_u": map[string]any{"secret": sec}, "secret": sec}).Unmarshal(&t)
+		if err != nil {
+			out.Linef("viol sig=C14/unmarshal/error err=%s", vHex(err.Error()))
+			continue
+		}
+		got := [][2]string{{"direct", string(t.Direct)}, {"headers", string(t.Headers["h"])}, {"nested", string(t.Nested.Secret)},
+			{"nested_unmarshaler", string(t.NestedU.Secret)}, {"squash_plain", string(t.Plain.Secret)}}
+		if t.Ptr != nil {
+			got = append(got, [2]string{"ptr", string(*t.Ptr)})
+		}
+		if len(t.List) == 1 {
+			got = append(got, [2]string{"list", string(t.List[0])})
+		}
+		for _, kv := range got {
+			out.Linef("op unm pos=%s hook=0 sec=%s", kv[0], vHex(sec))
+			out.Linef("obs stored %s", vHex(kv[1]))
+			if kv[1] != sec {
+				out.Linef("viol sig=C14/unmarshal/secret-changed position=%s wrote=%s got=%s", kv[0], vHex(sec), vHex(kv[1]))
+			}
+		}
+		var n c14UnmSquashNamed
+		err = confmap.NewFromStringMap(map[string]any{"secret": sec, "y": 1}).Unmarshal(&n)
+		out.Linef("op unm pos=squash_named_unmarshaler hook=1 sec=%s", vHex(sec))
+		if err != nil {
+			out.Linef("obs error")
+		} else {
+			out.Linef("obs stored %s", vHex(string(n.Inner.Secret)))
+			if string(n.Inner.Secret) != sec {
+				out.Linef("viol sig=C14/unmarshal/squashed-unmarshaler-stores-marker wrote=%s got=%s", vHex(sec), vHex(string(n.Inner.Secret)))
+			}
+		}
+	}
+	out.Linef("nt")
+	out.Linef("end")
+	out.Flush()
+}
